@@ -336,6 +336,26 @@ def register(kernel):
            imports=["Bits", "Rbm", "Gibbs", "GibbsSkel"], cor_imports=["GibbsSkelT"],
            tactic="apply skeleton_p_is_sampler; vm_compute; reflexivity")
 
+    # ------------------------------------------------------------------ C16: composite observables, per-sample value
+    # an operand is a scalar or an observable (the constructors refuse anything else): lsc / rsc say which; lq / rq are the scalar
+    # values, la / ra the per-sample values of the operand observables
+    obsf = dict(file="qucumber/observables/observable.py", imports=[], unused_params=["nn_state", "samples"])
+    kernel("C16", name="sum_apply", func="SumObservable.apply", inputs=[],
+           atoms=[("self.left.apply(nn_state, samples)", "la", F), ("self.right.apply(nn_state, samples)", "ra", F),
+                  ("isinstance(self.left, (float, int))", "lsc", B), ("isinstance(self.right, (float, int))", "rsc", B),
+                  ("isinstance(self.left, ObservableBase)", "(negb lsc)", B), ("isinstance(self.right, ObservableBase)", "(negb rsc)", B),
+                  ("self.left", "lq", F), ("self.right", "rq", F)],
+           coq_params=[("lsc", "bool"), ("lq", "R"), ("la", "R"), ("rsc", "bool"), ("rq", "R"), ("ra", "R")], result=F,
+           thm_params=[("lsc", "bool"), ("lq", "R"), ("la", "R"), ("rsc", "bool"), ("rq", "R"), ("ra", "R")],
+           gen_args="lsc lq la rsc rq ra", model="((if lsc then lq else la) + (if rsc then rq else ra))%R",
+           model_name="value of left operand + value of right operand, per sample (ObsExpr.evalpt (Add a b))",
+           tactic="intros; cbv [GEN]; destruct lsc, rsc; cbn [negb]; lra", **obsf)
+    kernel("C16", name="prod_apply", func="ProdObservable.apply", inputs=[],
+           atoms=[("self.right.apply(nn_state, samples)", "ra", F), ("self.left", "lq", F)],
+           coq_params=[("lq", "R"), ("ra", "R")], result=F, thm_params=[("lq", "R"), ("ra", "R")],
+           gen_args="lq ra", model="(lq * ra)%R", model_name="scalar factor * value of the observable, per sample (ObsExpr.evalpt (Mul a b))",
+           tactic="intros; cbv [GEN]; lra", **obsf)
+
 
 def register_corollaries(cor):
     """property-level facts stated over SEVERAL generated kernels at once (compiled with the combined generated file)"""
